@@ -50,6 +50,15 @@ def main(argv=None):
     ap.add_argument("--no-evidence", action="store_true")
     ap.add_argument("--trace", action="store_true", help="with --replay: print the event log")
     a = ap.parse_args(argv)
+    if a.replay and argv is None:
+        try:
+            with open(a.replay) as fh:
+                want = str(json.load(fh).get("hashseed", ""))
+        except (OSError, ValueError):
+            want = ""
+        if want.isdigit() and os.environ.get("PYTHONHASHSEED") != want:
+            os.environ["PYTHONHASHSEED"] = want  # replay under the string-hash seed the violation was found with
+            os.execv(sys.executable, [sys.executable, "-m", "simhost.check"] + sys.argv[1:])
     if "PYTHONHASHSEED" not in os.environ and argv is None:
         # a known, seed-derived string-hash seed for this process tree (reference interpreters get other ones)
         base = a.seed if a.seed is not None else int(os.environ.get("VERIF_SEED", DEFAULT_SEED[a.tier]))
